@@ -309,8 +309,8 @@ class Check:
                     starts.append((ln, m.group(1)))
         bad = set()
         unattributed = False
-        for m in re.finditer(r"PP/Proofs/%s:(\d+):\d+: error" % re.escape(proofs_file), out):
-            ln = int(m.group(1))
+        for m in re.finditer(r"(?:error: \S*PP/Proofs/%s:(\d+):\d+)|(?:PP/Proofs/%s:(\d+):\d+: error)" % (re.escape(proofs_file), re.escape(proofs_file)), out):
+            ln = int(m.group(1) or m.group(2))
             cand = [nm for (st_, nm) in starts if st_ <= ln]
             if cand:
                 bad.add(cand[-1].replace("_eq", ""))
